@@ -1,2 +1,12 @@
 import SecsModel.Props.C16
 #print axioms SecsModel.Props.C16.header_roundtrip
+#print axioms SecsModel.Props.C16.split_correct
+#print axioms SecsModel.Props.C16.split_eq
+#print axioms SecsModel.Props.C16.block_roundtrip
+#print axioms SecsModel.Props.C16.corruption_rejected
+#print axioms SecsModel.Proofs.SecsIHdr.encode_decode
+#print axioms SecsModel.Proofs.SecsI.decode_eq
+#print axioms SecsModel.Proofs.SecsI.encode_eq
+#print axioms SecsModel.Props.C16.reassembly
+#print axioms SecsModel.Proofs.SecsIReasm.reassemble_local
+#print axioms SecsModel.Proofs.SecsIReasm.runK_split
